@@ -1,0 +1,19 @@
+//go:build verif
+
+// Contracts of package emulate for the gocv verifier (property C30).
+// Comment-only: no Go code is compiled from this file.
+//
+// typed_line(n): the user types a line of n arbitrary bytes at the prompt.
+// typed_wellformed(w): the line is non-empty, has no underscore and is an
+// optional sign followed by a decimal number, 0x/0X hexadecimal, 0b/0B
+// binary, 0o/0O octal or 0-prefixed octal number; typed_value(w): that integer
+// modulo 2^(8w).
+
+package emulate
+
+//@ func readValue
+//@   enum n in VALLENS, w in VALWIDTHS
+//@   requires typed_line(n)
+//@   ensures[error-iff-rejected] (result1 != nil) == !typed_wellformed(w)
+//@   ensures[width] result1 == nil ==> width(result0) == w
+//@   ensures[value] result1 == nil ==> val(result0) == typed_value(w)
